@@ -977,6 +977,19 @@ def untraced_oracle(ctx):
             if sc["api"] == "get_match":
                 sc["must_match"] = rng.random() < 0.5
             return corr.finalize_query(sc)
+        if rng.random() < 0.08:
+            # member names and constants with characters a message template could trip over
+            k1, k2 = rng.sample(["50%", "%s", "100%d", "{}", "{0}", "a%", "%(x)s", "\\n"], 2)
+            doc = {k1: {k2: "5%", "n": 1}, "l": [{k1: "%s"}, {k2: 2}], k2: "{}"}
+            path = rng.choice([[["k", k1], ["k", k2]], [["gwc"], ["f", ["has", ["c", [["k", k2]], "eq", enc("5%")], []]]],
+                               [["rec"], ["k", k1]], [["k", "l"], ["iwc"], ["f", ["has", ["p", [["k", k1]]], []]], ["k", k1]]])
+            sc = {"fam": "q", "doc": enc(doc), "path": path, "api": rng.choice(["find_matches", "find", "get", "get_match"]), "id": 0,
+                  "nexts": "drain", "extra": 1}
+            if sc["api"] == "get":
+                sc["default"] = ["const", enc("dflt")]
+            if sc["api"] == "get_match":
+                sc["must_match"] = False
+            return corr.finalize_query(sc)
         sc = gen.gen_query(rng, "all")
         sc["id"] = 0
         return corr.finalize_query(sc)
